@@ -106,6 +106,16 @@ Mul(a, b) == IF a = <<>> \/ b = <<>> THEN <<>>
              ELSE IF Len(a) >= Len(b) THEN MulAt(a, b, 1) ELSE MulAt(b, a, 1)
 
 (* ------------------------------- division ------------------------------ *)
+\* Division by a native 1 <= m < B: one pass, exact native digits.
+\* Returns <<quotient, native remainder>>.
+RECURSIVE DivSmallAt(_, _, _, _, _)
+DivSmallAt(a, m, i, r, q) ==
+  IF i = 0 THEN <<Norm(q), r>>
+  ELSE LET cur == r * B + a[i]
+       IN DivSmallAt(a, m, i - 1, cur % m, <<cur \div m>> \o q)
+
+DivSmall(a, m) == DivSmallAt(a, m, Len(a), 0, <<>>)
+
 \* Largest q in lo..hi with b * q <= cur, given b * lo <= cur (binary search).
 RECURSIVE QSearch(_, _, _, _)
 QSearch(cur, b, lo, hi) ==
@@ -115,7 +125,8 @@ QSearch(cur, b, lo, hi) ==
                                        ELSE QSearch(cur, b, lo, mid - 1)
 
 \* Quotient digit floor(cur / b) for cur < b * B.  The leading limbs bracket
-\* the digit, the binary search settles it.
+\* the digit (ctop / (btop + 1) <= digit <= ctop / btop), the binary search
+\* settles it.
 QDigit(cur, b) ==
   IF Lt(cur, b) THEN 0
   ELSE LET n == Len(b)
@@ -136,8 +147,19 @@ DivAt(a, b, i, r, q) ==
            nr == IF d = 0 THEN cur ELSE Sub(cur, MulSmall(b, d))
        IN DivAt(a, b, i - 1, nr, <<d>> \o q)
 
-\* <<quotient, remainder>> for b # 0.
-DivMod(a, b) == IF Lt(a, b) THEN <<<<>>, a>> ELSE DivAt(a, b, Len(a), <<>>, <<>>)
+\* <<quotient, remainder>> for b # 0.  Divisor and dividend are first scaled
+\* by the same native factor so that the leading limb of the divisor is at
+\* least B/2: the bracket of each quotient digit then spans a handful of
+\* values.  The quotient is unaffected, the remainder is scaled back.
+DivMod(a, b) ==
+  IF Lt(a, b) THEN <<Zero, a>>
+  ELSE IF Len(b) = 1
+    THEN LET qr == DivSmall(a, b[1]) IN <<qr[1], FromInt(qr[2])>>
+  ELSE LET s == B \div (b[Len(b)] + 1)
+       IN IF s = 1 THEN DivAt(a, b, Len(a), <<>>, <<>>)
+          ELSE LET sa == MulSmall(a, s)
+                   qr == DivAt(sa, MulSmall(b, s), Len(sa), <<>>, <<>>)
+               IN <<qr[1], DivSmall(qr[2], s)[1]>>
 Div(a, b) == DivMod(a, b)[1]
 Mod(a, b) == DivMod(a, b)[2]
 
